@@ -144,6 +144,9 @@ func (ex *Exec) checkPost(fr *Frame, st *State, vs []*Val, k int, pos string) {
 		}
 	}
 	for i, c := range ct.Ensures {
+		if c.AtReturn > 0 && c.AtReturn != k {
+			continue
+		}
 		cj := ex.rootCtx(fr, st, ex.oldState, env).conjuncts(c.Expr)
 		for j, x := range cj {
 			nm := fmt.Sprintf("post[%s]@return[%d]", clauseLabel(c, i), k)
